@@ -986,7 +986,19 @@ impl NodeDeletionEntry {
         //a deletion record only removes the version it names, or an older one
         let query = "DELETE FROM _node WHERE room_id=? AND id=? AND mdate <= ?";
         let mut stmt = conn.prepare_cached(query)?;
+        let mut stored_stmt = conn.prepare_cached(
+            "SELECT _entity, mdate FROM _node WHERE room_id=? AND id=? AND mdate <= ?",
+        )?;
         for node in nodes {
+            //the stored version can be older than the one the deletion entry was built from: its day looses a row
+            {
+                let mut stored = stored_stmt.query((node.room_id, node.id, node.mdate))?;
+                while let Some(row) = stored.next()? {
+                    let entity: String = row.get(0)?;
+                    let mdate: i64 = row.get(1)?;
+                    daily_log.set_need_update(node.room_id, &entity, mdate);
+                }
+            }
             stmt.execute((node.room_id, node.id, node.mdate))?;
             node.write(conn)?;
             daily_log.set_need_update(node.room_id, &node.entity, node.deletion_date);
